@@ -658,6 +658,9 @@ def _consumer_table(ctx, ev, rep, orc, etab=None):
         for a in n["arms"]:
             arm = tb.arms[a]
             pat = arm["pat"]
+            # one match on the state machine's Result: `Ok(ItsPayloadWord::X)` / `Err(AmbigiousError::Y)` arms
+            if pat["k"] == "Variant" and pat["adt"].endswith("result::Result") and len(pat.get("subs", [])) == 1:
+                pat = pat["subs"][0]["p"]
             names = []
             if pat["k"] == "Variant" and pat["adt"].endswith(("ItsPayloadWord", "AmbigiousError")):
                 names = [pat["vname"]]
